@@ -5,7 +5,7 @@ import json
 import random
 
 import lsst.daf.relation as dr
-from lsst.daf.relation import iteration
+from lsst.daf.relation import iteration, sql
 
 import core
 import enc
@@ -209,6 +209,45 @@ def processor_history(rng):
             "coq": coq, "nontrivial": bool(all_mats) and len(events) >= 2, "key": coq + "".join(events)}
 
 
+def non_marker_attach():
+    """Every relation that is not a marker rejects attach_payload with TypeError — also when it holds no payload yet
+    (a leaf constructed with payload=None, doomed / join-identity leaves of an engine whose trivial payloads are None,
+    operation relations) — and stays as it was."""
+    from enc import K
+    bad = []
+
+    class Bare(iteration.Engine):
+        def get_doomed_payload(self, columns):
+            return None
+
+        def get_join_identity_payload(self):
+            return None
+    it, bare, sq = iteration.Engine(name="nm_it"), Bare(name="nm_bare"), sql.Engine(name="nm_sql")
+    a = K(1)
+    leaf = it.make_leaf({a}, payload=iteration.RowSequence([{a: 1}]), name="nmL")
+    subjects = [
+        ("iteration leaf constructed with payload=None", dr.LeafRelation(it, frozenset({a}), payload=None, name="nm0")),
+        ("SQL leaf constructed with payload=None", dr.LeafRelation(sq, frozenset({a}), payload=None, name="nm1")),
+        ("doomed leaf of an engine whose doomed payload is None", bare.make_doomed_relation({a}, ["x"])),
+        ("join-identity leaf of an engine whose identity payload is None", bare.make_join_identity_relation()),
+        ("leaf with a payload", leaf),
+        ("unary operation relation", leaf.with_only_columns(set())),
+        ("binary operation relation", leaf.chain(leaf)),
+    ]
+    for what, rel in subjects:
+        before = getattr(rel, "payload", None)
+        try:
+            rel.attach_payload(iteration.RowSequence([]))
+            bad.append({"relation": what, "problem": "attach_payload was accepted"})
+        except TypeError:
+            pass
+        except Exception as e:  # noqa: BLE001
+            bad.append({"relation": what, "problem": f"attach_payload raised {type(e).__name__}, not TypeError"})
+        if getattr(rel, "payload", None) is not before:
+            bad.append({"relation": what, "problem": "the payload slot changed"})
+    return len(subjects), bad
+
+
 def run(ctx):
     rng = random.Random(ctx.seed)
     s1 = core.s1(ctx, ["Slice"], "Properties.C10", THEOREMS, extra_targets=["Model/CheckStore.vo"])
@@ -221,11 +260,14 @@ def run(ctx):
     bits = {1: "outcomes or payload sets differ from the model's history",
             4: "a payload changed or disappeared, an upstream tree was evaluated more than once, or an attachment was wrongly accepted"}
     summ = core.judge(ctx, cases, HDR, "check_hist", bits=bits, shard=100)
+    nsub, nbad = non_marker_attach()
+    for b in nbad[:3]:
+        ctx.failing_case({"kind": "attachment-to-a-non-marker", "case": b}, None)
     core.conclude_s1(ctx, s1, summ["spec_failures"] + psumm["spec_failures"] > 0 or bool(ctx.violations))
     ctx.coverage.update({
         "evaluations": len(cases) + len(pcases),
         "distinct_nontrivial": len({c["key"] for c in cases + pcases if c["nontrivial"]}),
-        "processor_histories": psumm,
+        "processor_histories": psumm, "non_marker_relations_refusing_attachment": nsub - len({b["relation"] for b in nbad}),
         "rule": "(b) histories of process()+execute by one real SQLite<->iteration Processor over trees sharing a materialization "
                 "whose upstream crosses engines, with chains that have a statically empty branch on either side; the counting "
                 "leaf below the materialization may be read at most once over the whole history. "
